@@ -41,9 +41,31 @@ def gen_chain(rng):
     return {"rules": rules, "start": "S"}
 
 
-def gen_ig(rng):
+def gen_combo(rng):
+    """a production rule whose right non-terminal has several marked sets, each consumable on the index:
+    the 'combination of consumption alternatives' (addrec_bis / addrec_ter), with recursion through the stack
+    and the rule that needs the new mark listed anywhere"""
+    names = rng.sample(["A", "B", "C", "D", "E", "F", "G", "H"], 6)
+    a, b, c, d, e, t = names
+    f = rng.choice(IDX)
+    rules = [["dup", "S", a, t], ["prod", a, b, f], ["dup", b, c, d], ["cons", f, c, e], ["cons", f, d, e],
+             ["end", e, rng.choice(["a", "b"])], ["end", t, rng.choice(["a", "b"])]]
+    if rng.random() < 0.8:
+        rules.append(["cons", f, b, rng.choice([a, e, b])])       # the identity set {B} is consumable too
+    if rng.random() < 0.4:
+        rules.append(["cons", f, c, rng.choice([a, b, d])])       # a second alternative for one member
     if rng.random() < 0.3:
+        del rules[rng.randrange(2, len(rules))]                   # sometimes break the derivation
+    rng.shuffle(rules)
+    return {"rules": rules, "start": "S"}
+
+
+def gen_ig(rng):
+    r0 = rng.random()
+    if r0 < 0.25:
         return gen_chain(rng)
+    if r0 < 0.45:
+        return gen_combo(rng)
     nts = NTS[:rng.randint(2, 5)]
     idx = IDX[:rng.randint(1, 2)]
     rules = []
